@@ -436,14 +436,15 @@ Definition substructure (c : cfg) (ats : list Z) (h : hp) (o : mobj) : pyres (hp
            end
   end.
 
-(* ---- the patch step of Standardize.__standardize for one match: atom n gets charge += dch, bond n-m gets order bo *)
+(* ---- Standardize.standardize() with one rule that matches once: the patch step of __standardize (atom n gets
+   charge += dch, bond n-m gets order bo) followed by fix_stereo *)
 Definition patch (n m bo dch : Z) : act := fun h o =>
   match zget (o_atoms o) n, zget (o_atoms o) m, zget (o_adj o) n, zget (o_adj o) m with
   | Some an, Some _, Some rn, Some rm =>
       let chg := c_chg (a_core an) + dch in
       if chg >? 4 then
         (* bad charge formed. changes omitted; the atom is still in hs *)
-        (flush true true ;; calc_labels ;; calc_implicit n) h o
+        (flush true true ;; calc_labels ;; calc_implicit n ;; fix_stereo) h o
       else
         let o1 := set_atoms o (zset (o_atoms o) n
                     (mkA (mkCore (c_num (a_core an)) (c_iso (a_core an)) chg (c_rad (a_core an))) (a_hyd an) (a_lab an))) in
@@ -453,13 +454,13 @@ Definition patch (n m bo dch : Z) : act := fun h o =>
             | None => raise OtherError h o1
             | Some cl =>
                 let ks := negb ((b_ord cl =? 8) || (bo =? 8)) in
-                (flush ks true ;; calc_labels ;; calc_implicit n ;; calc_implicit m) (hset h rf (mkB bo (b_lab cl))) o1
+                (flush ks true ;; calc_labels ;; calc_implicit n ;; calc_implicit m ;; fix_stereo) (hset h rf (mkB bo (b_lab cl))) o1
             end
         | None =>
             let (h1, rf) := halloc h (mkB bo false) in
             let adj1 := zset (o_adj o1) n (zset rn m rf) in
             let o2 := set_adj o1 (zset adj1 m (zset (match zget adj1 m with Some x => x | None => rm end) n rf)) in
-            (flush false false ;; calc_labels ;; calc_implicit n ;; calc_implicit m) h1 o2
+            (flush false false ;; calc_labels ;; calc_implicit n ;; calc_implicit m ;; fix_stereo) h1 o2
         end
   | _, _, _, _ => raise KeyError h o
   end.
@@ -745,3 +746,24 @@ Definition check_case (c : cfg) (s0 : state) (ops : list op) (exns : list (optio
   check_mol strict (s_heap s) (s_cur s) cur &&
   forall2b (fun o x => check_mol strict (s_heap s) o x) (s_others s) others &&
   list_eqb Z.eqb (canon (all_refs s)) ids.
+
+(* a long sequence compared after every harness operation (a harness operation may be several model operations) *)
+Record stepx := mkStep { st_ops : list op; st_exns : list (option pyexn); st_strict : bool; st_cur : obs; st_others : list obs;
+                         st_ids : list Z }.
+Fixpoint check_steps (c : cfg) (s : state) (steps : list stepx) : bool :=
+  match steps with
+  | [] => true
+  | x :: t =>
+      let s' := run c (st_ops x) s in
+      list_eqb exn_eqb (trace c (st_ops x) s) (st_exns x) &&
+      check_mol (st_strict x) (s_heap s') (s_cur s') (st_cur x) &&
+      forall2b (fun o y => check_mol (st_strict x) (s_heap s') o y) (s_others s') (st_others x) &&
+      list_eqb Z.eqb (canon (all_refs s')) (st_ids x) &&
+      check_steps c s' t
+  end.
+(* index of the first disagreeing step (for reporting) *)
+Fixpoint first_bad (c : cfg) (s : state) (steps : list stepx) (i : Z) : Z :=
+  match steps with
+  | [] => -1
+  | x :: t => if check_steps c s [x] then first_bad c (run c (st_ops x) s) t (i + 1) else i
+  end.
